@@ -75,6 +75,16 @@ def null_test(cond):
             if k is None:
                 return None
             return (k, neg)  # `p` true => non-null; `!p` true => null
+        if n.k == 'ImplicitCastExpr' and n.cast == 'LValueToRValue' and n.child('sub') is not None:
+            n = n.child('sub')
+            continue
+        if n.k == 'DeclRefExpr' and n.dk == 'local' and (n.t or '').replace('const ', '') == 'bool':
+            # a named test: `const bool has = (p != NULL); if (has) ...` reads as its initialiser (single definition)
+            ds = [v for v in n.fn.nodes.values() if v.k == 'VarDecl' and v.d == n.d and v.child('init') is not None]
+            ws = [x for x in n.fn.nodes.values() if is_assign(x) and x.child('lhs') is not None and x.child('lhs').k == 'DeclRefExpr' and x.child('lhs').d == n.d]
+            if len(ds) == 1 and not ws:
+                n = ds[0].child('init')
+                continue
         break
     if n.k == 'BinaryOperator' and n.op in ('==', '!='):
         l, r = n.child('lhs'), n.child('rhs')
